@@ -17,7 +17,7 @@ import (
 
 type scenIn struct {
 	Scenario
-	Mode  string `json:"mode"`  // fault | crash | once | burst | cancel (the caller gives up before call k)
+	Mode  string `json:"mode"`  // fault | crash | once | burst | cancel (the caller gives up before call k) | timeout (call k is slower than the global timeout)
 	Every int    `json:"every"` // use every n-th placement (1 = all)
 }
 
@@ -73,7 +73,8 @@ func TestClusterFaults(t *testing.T) {
 			out.Emit(ev)
 		}
 	}
-	cancelAt := 0
+	cancelAt, hangAt := 0, 0
+	g.HangFor = globalTimeout() + 400*time.Millisecond
 	one := func(in *scenIn, failAt, crashAt int) (k int, ok bool) {
 		env.WipeStore()
 		g.Reset(0, 0)
@@ -85,7 +86,7 @@ func TestClusterFaults(t *testing.T) {
 			return 0, false
 		}
 		run++
-		hdr := Event{"ev": "Run", "run": run, "mode": in.Mode, "store": StoreName(), "failAt": failAt, "crashAt": crashAt, "cancelAt": cancelAt, "scenario": in.Scenario, "ids": b.IDs}
+		hdr := Event{"ev": "Run", "run": run, "mode": in.Mode, "store": StoreName(), "failAt": failAt, "crashAt": crashAt, "cancelAt": cancelAt, "hangAt": hangAt, "scenario": in.Scenario, "ids": b.IDs}
 		evs := []Event{}
 		pre := env.Snapshot(b.Dims)
 		pre["when"] = "pre"
@@ -97,6 +98,7 @@ func TestClusterFaults(t *testing.T) {
 		}
 		g.Reset(failAt, crashAt)
 		g.CancelAt(cancelAt)
+		g.HangAt(hangAt)
 		if in.Mode == "burst" {
 			// no serialisation, and the instances' last external call of the creation (the commit of their recovery-log
 			// entry) completed at the same moment: their creation messages reach the caller back to back
@@ -183,13 +185,17 @@ func TestClusterFaults(t *testing.T) {
 			return
 		}
 		for k := 1 + (vt.EnvInt("VERIF_SEED", 1) % in.Every); ; k += in.Every {
-			if in.Mode == "cancel" {
+			if in.Mode == "cancel" || in.Mode == "timeout" {
 				if k > K {
 					break
 				}
-				cancelAt = k
+				if in.Mode == "cancel" {
+					cancelAt = k
+				} else {
+					hangAt = k
+				}
 				one(&in, 0, 0)
-				cancelAt = 0
+				cancelAt, hangAt = 0, 0
 				continue
 			}
 			if in.Mode == "crash" {
